@@ -46,6 +46,19 @@ class AnalysisError(Exception):
     pass
 
 
+def suffix_match(path, pat):
+    """`pat` matches the tail of `path` at a path-segment boundary (so `Stream::iter` does not match
+    `CanonStream::iter`).  Patterns starting with a non-identifier character (`>::f`) match as plain suffixes."""
+    if isinstance(pat, (tuple, list)):
+        return any(suffix_match(path, p) for p in pat)
+    if not path.endswith(pat):
+        return False
+    if len(path) == len(pat) or not (pat[0].isalnum() or pat[0] == "_"):
+        return True
+    prev = path[len(path) - len(pat) - 1]
+    return not (prev.isalnum() or prev == "_")
+
+
 _NORM = {}
 
 
@@ -321,7 +334,7 @@ class Fn:
     def calls_to(self, pred):
         if isinstance(pred, str):
             s = pred
-            pred = lambda c: c.path.endswith(s)
+            pred = lambda c: suffix_match(c.path, s)
         return [c for c in self.calls if pred(c)]
 
     def reach_from(self, start, avoid=()):
